@@ -47,7 +47,8 @@ Inductive frame :=
 | FCont (id len : Z) (eh : bool)
 | FRst (id : Z)
 | FAck
-| FPing (ack : bool).
+| FPing (ack : bool)
+| FWrite (last acc : bool).   (* not a wire frame: outcome of one ClientStream.Write call, see OApi *)
 
 (* ---- association lists keyed by Z ---- *)
 Section Assoc.
@@ -90,7 +91,9 @@ Inductive op :=
 | OGoAway                                            (* incomingGoAway *)
 | OPing (ack : bool)
 | OProcess                                           (* one call of processData *)
-| OClose.                                            (* closeConnection *)
+| OClose                                             (* closeConnection *)
+| OApi (lasts : list Z).                             (* transport API above loopy: on a fresh stream of a real
+                                                        http2Client call Write once per element, Last = element *)
 
 Definition dec_op (w : word) : option op :=
   match w with
@@ -108,6 +111,7 @@ Definition dec_op (w : word) : option op :=
     if t =? 10 then match a with [] => Some OProcess | _ => None end else
     if t =? 12 then match a with [] => Some OClose | _ => None end else
     if t =? 21 then match a with [sid; v] => Some (OSetOther sid v) | _ => None end else
+    if t =? 30 then Some (OApi a) else
     None
   end.
 
@@ -211,6 +215,16 @@ Definition activate (s : state) (id : Z) : state :=
 
 Definition new_stream : stream := mkS ST_EMPTY [] 0.
 
+(* http2Client.write: a write is accepted iff no earlier accepted write had Last (stream state
+   streamActive -> streamWriteDone); this is what guarantees loopy never gets a dataFrame after
+   the one with endStream *)
+Fixpoint api_writes (done : bool) (l : list Z) : list frame :=
+  match l with
+  | [] => []
+  | x :: r => let acc := negb done in
+              FWrite (z2b x) acc :: api_writes (done || (acc && z2b x)) r
+  end.
+
 (* handle *)
 Definition handle (s : state) (o : op) : state * res :=
   match o with
@@ -272,6 +286,7 @@ Definition handle (s : state) (o : op) : state * res :=
   | OPing a => (s, ok_res [FPing a])
   | OProcess => processData s
   | OClose => (s, mkR 1 false [])
+  | OApi l => (s, ok_res (api_writes false l))
   end.
 
 (* run(): once handle/processData returned an error (or would have panicked) loopy is gone *)
@@ -293,6 +308,7 @@ Definition enc_frame (f : frame) : word :=
   | FRst id => [4; id; 0; 0; 0]
   | FAck => [5; 0; 0; 0; 0]
   | FPing a => [6; b2z a; 0; 0; 0]
+  | FWrite l a => [7; b2z l; b2z a; 0; 0]
   end.
 Definition enc_stream (p : Z * stream) : word :=
   [fst p; st (snd p); bos (snd p); Z.of_nat (length (itl (snd p)))].
@@ -324,7 +340,8 @@ Definition dec_frame (w : word) : option frame :=
     if t =? 3 then Some (FCont a b (z2b c)) else
     if t =? 4 then Some (FRst a) else
     if t =? 5 then Some FAck else
-    if t =? 6 then Some (FPing (z2b a)) else None
+    if t =? 6 then Some (FPing (z2b a)) else
+    if t =? 7 then Some (FWrite (z2b a) (z2b b)) else None
   | _ => None
   end.
 
@@ -561,9 +578,19 @@ Fixpoint b_snap (strs : list (Z * (Z * Z * Z))) (bl : bledger) : bool :=
 
 (* the list of streams whose trailers were written is local to one op: clause 11 is exactly
    "the item that wrote the trailers also wrote RST_STREAM for the stream" *)
+(* clause 12: among the Write calls of one OApi op, none is accepted after an accepted one with
+   Last (so the application can never hand loopy data after END_STREAM was requested) *)
+Fixpoint api_ok (done : bool) (fs : list frame) : bool :=
+  match fs with
+  | [] => true
+  | FWrite last acc :: r => negb (done && acc) && api_ok (done || (acc && last)) r
+  | _ :: r => api_ok done r
+  end.
+
 Definition b_step (bl : bledger) (o : op) (ob : sobs) : bledger * list (Z * bool) :=
   let '(st', cl) := b_frames (b_op bl o (o_code ob) (o_frames ob), []) (o_frames ob) in
-  (fst st', cl ++ [(13, b_snap (o_strs ob) (fst st'))]).
+  (fst st', cl ++ [(13, b_snap (o_strs ob) (fst st'))] ++
+            match o with OApi _ => [(12, api_ok false (o_frames ob))] | _ => [] end).
 
 Fixpoint c02_from (i : Z) (st : bledger) (ops : list op) (obs : list sobs) : list (Z * Z * bool) :=
   match ops, obs with
